@@ -29,6 +29,10 @@ type seqConfig struct {
 	Fee      string   `json:"fee"`
 	ExitFee  string   `json:"exit_fee"`
 	Depth    int      `json:"depth"`
+	// optional: kind names / sizes of the alphabet (default: the eight A/B kinds x three sizes)
+	Alphabet   []string `json:"alphabet,omitempty"`
+	TradeSizes []string `json:"trade_sizes,omitempty"`
+	ExitSizes  []string `json:"exit_sizes,omitempty"`
 }
 
 // SeqReplay is the replay payload of part 2.
@@ -53,6 +57,14 @@ func seqConfigs(thorough bool) []seqConfig {
 		{Name: "stA", Pool: "stable", Reserves: []string{"1000000000", "1200000007"}, Scaling: []uint64{1, 1}, Fee: "0", ExitFee: "0", Depth: d - 1},
 		{Name: "stB", Pool: "stable", Reserves: []string{"1000000000000", "5000003"}, Scaling: []uint64{1000000, 1}, Fee: "0.003", ExitFee: "0", Depth: d - 1},
 	}
+	// multi-asset pools cycling through three denoms (every ordered denom pair occurs as a swap)
+	cyc := []string{"swapInAB", "swapInBC", "swapInCA", "swapInBA", "swapInCB", "swapInAC", "swapOutAC", "swapOutCB", "joinSingleC", "joinAll", "exitSingleC", "exitProp"}
+	cs = append(cs,
+		seqConfig{Name: "stCyc", Pool: "stable", Reserves: []string{"1000000000", "1200000007", "800000000000"}, Scaling: []uint64{1, 1, 1000}, Fee: "0", ExitFee: "0", Depth: d - 1,
+			Alphabet: cyc, TradeSizes: []string{"1e-2", "0.3"}, ExitSizes: []string{"1/2", "all"}},
+		seqConfig{Name: "balCyc", Pool: "bal", Reserves: []string{"1000000", "1000000000", "1000000000000"}, Weights: []int64{1, 2, 3}, Fee: "0", ExitFee: "0", Depth: d - 1,
+			Alphabet: cyc, TradeSizes: []string{"1e-2", "0.3"}, ExitSizes: []string{"1/2", "all"}},
+	)
 	if thorough {
 		cs = append(cs,
 			seqConfig{Name: "balC", Pool: "bal", Reserves: []string{"1000", "777"}, Weights: []int64{2, 1}, Fee: "0", ExitFee: "0.01", Depth: d},
@@ -108,7 +120,31 @@ func (h *poolH) n() int { return len(h.cfg.Reserves) }
 // ---------------------------------------------------------------------------------------------
 // alphabet
 
-var seqKinds = []string{"swapInAB", "swapInBA", "swapOutAB", "swapOutBA", "joinSingleA", "joinAll", "exitSingleA", "exitProp"}
+// the first eight kinds are the default alphabet; the others are used by configurations that name them
+// (multi-asset pools cycling through three denoms). Letters are denom positions (A = 0, B = 1, ...).
+var seqKinds = []string{"swapInAB", "swapInBA", "swapOutAB", "swapOutBA", "joinSingleA", "joinAll", "exitSingleA", "exitProp",
+	"swapInAC", "swapInCA", "swapInBC", "swapInCB", "swapOutAC", "swapOutCA", "swapOutBC", "swapOutCB", "joinSingleB", "joinSingleC", "exitSingleB", "exitSingleC"}
+
+const defaultKinds = 8
+
+// kindParts splits a kind name into its base and denom positions.
+func kindParts(kind int) (base string, i, j int) {
+	name := seqKinds[kind]
+	for _, b := range []string{"swapIn", "swapOut"} {
+		if strings.HasPrefix(name, b) {
+			return b, int(name[len(b)] - 'A'), int(name[len(b)+1] - 'A')
+		}
+	}
+	for _, b := range []string{"joinSingle", "exitSingle"} {
+		if strings.HasPrefix(name, b) {
+			return b, int(name[len(b)] - 'A'), 0
+		}
+	}
+	return name, 0, 0
+}
+
+func isExitKind(kind int) bool { return strings.HasPrefix(seqKinds[kind], "exit") }
+func isJoinKind(kind int) bool { return strings.HasPrefix(seqKinds[kind], "join") }
 var seqTradeSizes = []string{"1e-6", "1e-2", "0.3"}
 var seqExitSizes = []string{"1/3", "1/2", "all"}
 
@@ -131,15 +167,39 @@ func parseSeqOp(s string) seqOp {
 	panic("bad op " + s)
 }
 
-func seqAlphabet() []seqOp {
-	var a []seqOp
-	for k := range seqKinds {
-		for s := 0; s < 3; s++ {
-			if k >= 6 {
-				a = append(a, seqOp{k, seqExitSizes[s]})
-			} else {
-				a = append(a, seqOp{k, seqTradeSizes[s]})
+func seqAlphabet(cfg *seqConfig) []seqOp {
+	var kinds []int
+	if len(cfg.Alphabet) == 0 {
+		for k := 0; k < defaultKinds; k++ {
+			kinds = append(kinds, k)
+		}
+	}
+	for _, name := range cfg.Alphabet {
+		found := false
+		for k, n := range seqKinds {
+			if n == name {
+				kinds, found = append(kinds, k), true
 			}
+		}
+		if !found {
+			panic("unknown kind " + name)
+		}
+	}
+	ts, es := seqTradeSizes, seqExitSizes
+	if len(cfg.TradeSizes) > 0 {
+		ts = cfg.TradeSizes
+	}
+	if len(cfg.ExitSizes) > 0 {
+		es = cfg.ExitSizes
+	}
+	var a []seqOp
+	for _, k := range kinds {
+		sz := ts
+		if isExitKind(k) {
+			sz = es
+		}
+		for _, z := range sz {
+			a = append(a, seqOp{k, z})
 		}
 	}
 	return a
@@ -267,7 +327,7 @@ func (r *seqRun) flush() {
 // (hand-written replays) sort after, by name.
 func opRank(o seqOp) string {
 	sizes := seqTradeSizes
-	if o.kind >= 6 {
+	if isExitKind(o.kind) {
 		sizes = seqExitSizes
 	}
 	idx := 9
@@ -383,7 +443,7 @@ func (r *seqRun) perShare(s *seqState, before, after balSnap, parts int64, units
 			up := new(big.Rat).SetFloat64(fall * (1 + 1e-9))
 			up.Add(up, big.NewRat(1, 1000000000000000000))
 			s.eps.Add(s.eps, up)
-			allow := stableSingleJoinAllowance(before.B, r.cfg.Scaling, 0)
+			allow := stableSingleJoinAllowance(before.B, r.cfg.Scaling, 0) // position-independent enough for an observation metric
 			if a2 := stableSingleJoinAllowance(after.B, r.cfg.Scaling, 0); a2.Cmp(allow) > 0 {
 				allow = a2
 			}
@@ -406,7 +466,8 @@ func (r *seqRun) apply(s *seqState, op seqOp) (class string, ok bool) {
 	fee := dec(cfg.Fee)
 	exitFee := dec(cfg.ExitFee)
 	before := h.snap()
-	kind := seqKinds[op.kind]
+	kind, ki, kj := kindParts(op.kind)
+	_ = kj
 	ok = true
 	swapIn := func(i, j int, amt *big.Int) string {
 		var out sdk.Coin
@@ -430,11 +491,9 @@ func (r *seqRun) apply(s *seqState, op seqOp) (class string, ok bool) {
 		return ""
 	}
 	switch kind {
-	case "swapInAB", "swapInBA", "swapOutAB", "swapOutBA":
-		i, j := 0, 1
-		if strings.HasSuffix(kind, "BA") {
-			i, j = 1, 0
-		}
+	case "swapIn", "swapOut":
+		i, j := ki, kj
+		kind := seqKinds[op.kind]
 		var cl string
 		if strings.HasPrefix(kind, "swapIn") {
 			amt := resolveSize(op.size, before.B[i])
@@ -474,8 +533,8 @@ func (r *seqRun) apply(s *seqState, op seqOp) (class string, ok bool) {
 			ok = false
 		}
 		if cfg.Pool == "stable" {
-			kb := swapK(scaledRes(before.B, cfg.Scaling), i, j)
-			ka := swapK(scaledRes(after.B, cfg.Scaling), i, j)
+			kb := fullK(scaledRes(before.B, cfg.Scaling))
+			ka := fullK(scaledRes(after.B, cfg.Scaling))
 			if ka.Cmp(kb) < 0 {
 				r.viol("stable_invariant_decreased", fmt.Sprintf("%s: k fell by %.3g relative: before B=%v after B=%v", kind, f64(fRat(rQuo(rSub(kb, ka), kb))), strs(before.B), strs(after.B)))
 				ok = false
@@ -486,17 +545,18 @@ func (r *seqRun) apply(s *seqState, op seqOp) (class string, ok bool) {
 		}
 		r.account(s, before, after)
 
-	case "joinSingleA":
-		amt := resolveSize(op.size, before.B[0])
+	case "joinSingle":
+		kind := "joinSingleA" // oracle class name (kept for all positions)
+		amt := resolveSize(op.size, before.B[ki])
 		if amt.Sign() == 0 {
 			return "skip:zero_amount", true
 		}
 		var sh osmomath.Int
 		cl := try(func() (e error) {
 			if h.bal != nil {
-				sh, e = h.bal.JoinPool(ctx, sdk.Coins{coin(0, amt)}, fee)
+				sh, e = h.bal.JoinPool(ctx, sdk.Coins{coin(ki, amt)}, fee)
 			} else {
-				sh, e = h.st.JoinPool(ctx, sdk.Coins{coin(0, amt)}, fee)
+				sh, e = h.st.JoinPool(ctx, sdk.Coins{coin(ki, amt)}, fee)
 			}
 			return
 		})
@@ -505,14 +565,14 @@ func (r *seqRun) apply(s *seqState, op seqOp) (class string, ok bool) {
 			return cl, true
 		}
 		after := h.snap()
-		if new(big.Int).Sub(after.S, before.S).Cmp(sh.BigInt()) != 0 || new(big.Int).Sub(after.B[0], before.B[0]).Cmp(amt) != 0 {
+		if new(big.Int).Sub(after.S, before.S).Cmp(sh.BigInt()) != 0 || new(big.Int).Sub(after.B[ki], before.B[ki]).Cmp(amt) != 0 {
 			r.viol("returned_amount_matches_pool_delta", fmt.Sprintf("join %s shares %s: pool %v/%s -> %v/%s", amt, sh, strs(before.B), before.S, strs(after.B), after.S))
 			ok = false
 		}
 		if cfg.Pool == "stable" {
 			r.sk.vac("stable_single_join_binary_search")
-			if new(big.Int).Mul(sh.BigInt(), before.B[0]).Cmp(new(big.Int).Mul(amt, before.S)) > 0 {
-				r.viol("stable_single_join_exceeds_cap", fmt.Sprintf("shares %s * A %s > in %s * S %s", sh, before.B[0], amt, before.S))
+			if new(big.Int).Mul(sh.BigInt(), before.B[ki]).Cmp(new(big.Int).Mul(amt, before.S)) > 0 {
+				r.viol("stable_single_join_exceeds_cap", fmt.Sprintf("shares %s * A %s > in %s * S %s", sh, before.B[ki], amt, before.S))
 				ok = false
 			}
 		}
@@ -584,14 +644,15 @@ func (r *seqRun) apply(s *seqState, op seqOp) (class string, ok bool) {
 		r.account(s, before, after)
 		r.sk.vac("seq_joins")
 
-	case "exitSingleA":
+	case "exitSingle":
+		kind := "exitSingleA"
 		if s.shares.Sign() <= 0 {
 			return "skip:no_shares", true
 		}
 		if h.bal != nil {
 			// token a out = frac * actorShares * B_a / (S * w_a)
-			wa := normW(cfg.Weights, 0)
-			num := new(big.Int).Mul(s.shares, before.B[0])
+			wa := normW(cfg.Weights, ki)
+			num := new(big.Int).Mul(s.shares, before.B[ki])
 			q := rQuo(rInt(num), rMul(rInt(before.S), wa))
 			switch op.size {
 			case "1/3":
@@ -607,7 +668,7 @@ func (r *seqRun) apply(s *seqState, op seqOp) (class string, ok bool) {
 			}
 			var shIn osmomath.Int
 			cl := try(func() (e error) {
-				shIn, e = h.bal.ExitSwapExactAmountOut(ctx, coin(0, out), sdkInt(s.shares))
+				shIn, e = h.bal.ExitSwapExactAmountOut(ctx, coin(ki, out), sdkInt(s.shares))
 				return
 			})
 			r.sk.transition()
@@ -615,7 +676,7 @@ func (r *seqRun) apply(s *seqState, op seqOp) (class string, ok bool) {
 				return cl, true
 			}
 			after := h.snap()
-			if new(big.Int).Sub(before.S, after.S).Cmp(shIn.BigInt()) != 0 || new(big.Int).Sub(before.B[0], after.B[0]).Cmp(out) != 0 {
+			if new(big.Int).Sub(before.S, after.S).Cmp(shIn.BigInt()) != 0 || new(big.Int).Sub(before.B[ki], after.B[ki]).Cmp(out) != 0 {
 				r.viol("returned_amount_matches_pool_delta", fmt.Sprintf("exit out %s shares %s: pool %v/%s -> %v/%s", out, shIn, strs(before.B), before.S, strs(after.B), after.S))
 				ok = false
 			}
@@ -645,7 +706,7 @@ func (r *seqRun) apply(s *seqState, op seqOp) (class string, ok bool) {
 			}
 			r.account(s, before, mid)
 			for _, cn := range coins {
-				if cn.Denom == denoms[0] {
+				if cn.Denom == denoms[ki] {
 					continue
 				}
 				j := 1
@@ -656,7 +717,7 @@ func (r *seqRun) apply(s *seqState, op seqOp) (class string, ok bool) {
 				}
 				b2 := h.snap()
 				cl := try(func() (e error) {
-					_, e = h.st.SwapOutAmtGivenIn(ctx, sdk.Coins{cn}, denoms[0], fee)
+					_, e = h.st.SwapOutAmtGivenIn(ctx, sdk.Coins{cn}, denoms[ki], fee)
 					return
 				})
 				r.sk.transition()
@@ -665,8 +726,9 @@ func (r *seqRun) apply(s *seqState, op seqOp) (class string, ok bool) {
 					continue
 				}
 				a2 := h.snap()
-				kb := swapK(scaledRes(b2.B, cfg.Scaling), j, 0)
-				ka := swapK(scaledRes(a2.B, cfg.Scaling), j, 0)
+				_ = j
+				kb := fullK(scaledRes(b2.B, cfg.Scaling))
+				ka := fullK(scaledRes(a2.B, cfg.Scaling))
 				if ka.Cmp(kb) < 0 {
 					r.viol("stable_invariant_decreased", fmt.Sprintf("%s (swap leg): k fell: before B=%v after B=%v", kind, strs(b2.B), strs(a2.B)))
 					ok = false
@@ -759,10 +821,10 @@ func (r *seqRun) closing(s0 *seqState) {
 	r.sk.r.Traces++
 	hasJoin, hasExit := false, false
 	for _, o := range r.path {
-		if o.kind == 4 || o.kind == 5 {
+		if isJoinKind(o.kind) {
 			hasJoin = true
 		}
-		if o.kind >= 6 {
+		if isExitKind(o.kind) {
 			hasExit = true
 		}
 	}
@@ -871,9 +933,9 @@ func (r *seqRun) step(s *seqState, op seqOp, depth int, alphabet []seqOp, expire
 
 func seqItems(thorough bool) []workItem {
 	var items []workItem
-	alphabet := seqAlphabet()
 	for _, cfg := range seqConfigs(thorough) {
 		cfg := cfg
+		alphabet := seqAlphabet(&cfg)
 		for _, op1 := range alphabet {
 			for i2, op2 := range alphabet {
 				i2, op1, op2 := i2, op1, op2
